@@ -11,6 +11,8 @@
      lit <hex bytes>      -> lit int|flt|chr|str ... | lit err <e>  tokenize() on a text that starts with a literal
      text <hex bytes>     -> text <hex bytes>                       BOM skip + phases of tokenize_file
      join <hex> <hex> ... -> join <ty> <n> <hex units> | join err   join_adjacent_string_literals on adjacent literals
+     file <hex bytes>     -> file <hex text> int|flt|chr|str ... | file <hex text> other | file err <e>
+                                                                    tokenize_file: phases, then the first token
 -/
 import ChibiVerif.Model.Literals
 import ChibiVerif.Model.Text
@@ -74,6 +76,16 @@ def litLine (p : List Byte) : String :=
   | .ok (.str t) => s!"lit str {showStr t} {t.len}"
   | .error e => s!"lit err {errName e}"
 
+def fileLine (bytes : List Byte) : String :=
+  let y := ChibiVerif.Text.phase12 bytes
+  match lexLiteral y with
+  | .ok (.int v ty n) => s!"file {bytesHex y} int {hexOf v.toNat} {tyName ty} {n}"
+  | .ok (.flt n) => s!"file {bytesHex y} flt {n}"
+  | .ok (.chr v ty n) => s!"file {bytesHex y} chr {hexOf v.toNat} {tyName ty} {n}"
+  | .ok (.str t) => s!"file {bytesHex y} str {showStr t} {t.len}"
+  | .error .notALiteral => s!"file {bytesHex y} other"
+  | .error e => s!"file err {errName e}"
+
 def joinLine (srcs : List (List Byte)) : String :=
   let toks := srcs.mapM (fun p => match lexLiteral p with
     | .ok (.str t) => if t.len = p.length then Except.ok t else .error LitErr.notALiteral
@@ -125,6 +137,10 @@ def literalsLine (ws : List String) : String :=
   | ["text", h] =>
     match parseBytes h with
     | some p => s!"text {bytesHex (ChibiVerif.Text.phase12 p)}"
+    | none => "bad-op"
+  | ["file", h] =>
+    match parseBytes h with
+    | some p => fileLine p
     | none => "bad-op"
   | "join" :: hs =>
     match hs.mapM parseBytes with
